@@ -276,9 +276,17 @@ def gen_topology(rs, n, shape, deco=True, selfbond=False, bonds=None, spread=Non
     spread: gapped numbering and bonds over the three sections (default: as deco)"""
     spread = deco if spread is None else spread
     numbers, cur = [], int(rs.randint(1, 50)) if spread else 1
-    for _ in range(n):
+    # numbering modes are enumerated, not hoped for: general gaps, contiguous from any start, exactly ONE skipped number
+    mode = int(rs.randint(0, 6)) if spread else 0
+    skip_at = int(rs.randint(1, n)) if (mode == 1 and n >= 2) else -1
+    for k in range(n):
+        if k == skip_at:
+            cur += 1
         numbers.append(cur)
-        cur += 1 if (not spread or rs.randint(0, 3)) else int(rs.randint(2, 40))
+        if mode in (0, 1):
+            cur += 1
+        else:
+            cur += 1 if (not spread or rs.randint(0, 3)) else int(rs.randint(2, 40))
     resid, atoms = 1, []
     rn = gen_name(rs, 4, "")
     for k in range(n):
